@@ -108,7 +108,7 @@ def gen_value(rng, cls, f, cname):
             if abs(raw) >= 127:
                 return 0.0, 'f:0'
             return float(v), 'f:%d' % (back * 10 ** 6)
-        lo, hi = (-(1 << (w - 1)), (1 << (w - 1)) - 1) if signed else (0, (1 << w) - 2)
+        lo, hi = (-(1 << (w - 1)), (1 << (w - 1)) - 1) if signed else (0, (1 << w) - 1)    # (incl. the all-ones code)
         if kind in ('I4', 'I600'):
             k = 600000 if kind == 'I4' else 600
             lim = min(hi, (180 if 'lon' in name else 90) * k)
@@ -121,7 +121,7 @@ def gen_value(rng, cls, f, cname):
             exp = rhe(Fraction(wire2 * 10 ** 6, k))
             return float(Decimal(micro) / 10 ** 6), 'f:%d' % exp
         if kind == 'T10':
-            wire = rng.choice([lo, hi, 0, 1, rng.randint(lo, hi)])
+            wire = rng.choice([lo, hi, hi - 1, 0, 1, rng.randint(lo, hi)])
             extra = rng.choice([0, 0, 3, 9]) if wire >= 0 else -rng.choice([0, 0, 3, 9])     # hundredths: truncated
             micro = wire * 100000 + extra * 10000
             exp_wire = int(Fraction(micro * 10, 10 ** 6))           # trunc toward zero
@@ -130,7 +130,7 @@ def gen_value(rng, cls, f, cname):
             if not (lo <= exp_wire <= hi):
                 exp_wire, micro = wire, wire * 100000
             return float(Decimal(micro) / 10 ** 6), 'f:%d' % (exp_wire * 100000)
-        wire = rng.choice([0, 1, hi, rng.randint(0, hi)])
+        wire = rng.choice([0, 1, hi, hi - 1, rng.randint(0, hi)])
         return rng.choice([float(wire), wire]), 'f:%d' % (wire * 10 ** 6)
     if d_type is str:
         n = w // 6
